@@ -55,10 +55,16 @@ class StripCommentsFilter:
             nidx, next_ = tlist.token_next(tidx, skip_ws=False)
             # Replace by whitespace if prev and next exist and if they're not
             # whitespaces. This doesn't apply if prev or next is a parenthesis.
+            # At the start or end of a nested group the neighbour is not
+            # visible here, so a separator has to stay in that case.
+            at_start = prev_ is None and tlist.parent is None
+            at_end = next_ is None and tlist.parent is None
             if (
-                prev_ is None or next_ is None
-                or prev_.is_whitespace or prev_.match(T.Punctuation, '(')
-                or next_.is_whitespace or next_.match(T.Punctuation, ')')
+                at_start or at_end
+                or (prev_ is not None and (
+                    prev_.is_whitespace or prev_.match(T.Punctuation, '(')))
+                or (next_ is not None and (
+                    next_.is_whitespace or next_.match(T.Punctuation, ')')))
             ):
                 # Insert a whitespace to ensure the following SQL produces
                 # a valid SQL (see #425).
@@ -88,7 +94,8 @@ class StripWhitespaceFilter:
     @staticmethod
     def _stripws_default(tlist):
         last_was_ws = False
-        is_first_char = True
+        # only a statement can start with superfluous whitespace
+        is_first_char = tlist.parent is None
         for token in tlist.tokens:
             if token.is_whitespace:
                 token.value = '' if last_was_ws or is_first_char else ' '
